@@ -203,6 +203,8 @@ def run(ctx):
     ctx.theorems = THEOREMS
     build_and_audit(ctx, PROP, MODULES, THEOREMS)
     dm_correspondence(ctx)
+    from props import C01_einsum
+    C01_einsum.run_suites(ctx)
     dm_search(ctx)
     dm_history(ctx)
     ctx.notes.append("DM correspondence: exhaustive (targets × control subsets) n<=3 (4 thorough) with Gaussian-integer gates and a non-Hermitian integer rho, random circuits; exact comparison; float search over the whole gate library")
